@@ -161,6 +161,16 @@ Fixpoint one_section (seen : bool) (p : list op) : bool :=
   | _ :: p' => one_section seen p'
   end.
 
+(** a confirmation consumes its session (under the store mutex) before it commits anything: of two confirmations of one session
+    only the one that pops it learns *)
+Fixpoint pop_before_commit (popped : bool) (p : list op) : bool :=
+  match p with
+  | [] => true
+  | StorePop :: p' => pop_before_commit true p'
+  | CommitFreq :: p' | LearnCompound :: p' => popped && pop_before_commit popped p'
+  | _ :: p' => pop_before_commit popped p'
+  end.
+
 (** the session is in the store before the response leaves *)
 Fixpoint insert_before_respond (inserted : bool) (p : list op) : bool :=
   match p with
